@@ -59,6 +59,13 @@ Definition out_res {A} (f : A -> Z) (r : res (A * heap)) (h : heap) : list Z * h
   | Err e => ([exn_code e; 0], h)
   end.
 
+(* for the operations that return the heap reached even when they raise *)
+Definition out_rs {A} (f : A -> Z) (r : res A * heap) : list Z * heap :=
+  match r with
+  | (Ok a, h') => ([0; f a], h')
+  | (Err e, h') => ([exn_code e; 0], h')
+  end.
+
 Definition b2z (b : bool) : Z := if b then 1 else 0.
 
 Fixpoint run_script (fuel : nat) (t : list Z) (h : heap) (s : pset) : list Z :=
@@ -76,7 +83,7 @@ Fixpoint run_script (fuel : nat) (t : list Z) (h : heap) (s : pset) : list Z :=
           | VObj x => ([0; x], h, s)
           end
         else if op =? 2 then ([0; b2z (py_hash h va =? py_hash h vb)], h, s)
-        else if op =? 3 then let (o, h') := out_res b2z (py_eq h va vb) h in (o, h', s)
+        else if op =? 3 then let (o, h') := out_rs b2z (py_eq h va vb) in (o, h', s)
         else if op =? 4 then let (o, h') := out_res (fun x => x) (py_getattr h va) h in (o, h', s)
         else if op =? 5 then
           match py_setattr h va b with
@@ -85,12 +92,12 @@ Fixpoint run_script (fuel : nat) (t : list Z) (h : heap) (s : pset) : list Z :=
           end
         else if op =? 6 then
           match ps_add h va s with
-          | Ok (s', h') => ([0; 0], h', s')
-          | Err e => ([exn_code e; 0], h, s)
+          | (Ok s', h') => ([0; 0], h', s')
+          | (Err e, h') => ([exn_code e; 0], h', s)
           end
-        else if op =? 7 then let (o, h') := out_res b2z (ps_contains h va s) h in (o, h', s)
-        else if op =? 8 then let (o, h') := out_res (fun x => x) (ps_index h va s) h in (o, h', s)
-        else if op =? 9 then let (o, h') := out_res b2z (any_eq h va (p_items s)) h in (o, h', s)
+        else if op =? 7 then let (o, h') := out_rs b2z (ps_contains h va s) in (o, h', s)
+        else if op =? 8 then let (o, h') := out_rs (fun x => x) (ps_index h va s) in (o, h', s)
+        else if op =? 9 then let (o, h') := out_rs b2z (any_eq h va (p_items s)) in (o, h', s)
         else ([99; 0], h, s) in
       (* after every operation: the outcome, the length of the set, the resolved flag of every proxy *)
       o ++ [Z.of_nat (length (p_items s'))]
